@@ -1,11 +1,11 @@
 _B = dict(cls='B', tu='C07_repack_b.c', dfcc=False, canary='real', functions=['opus_repacketizer_cat_impl', 'opus_repacketizer_out_range_impl', 'opus_packet_pad_impl',
           'opus_packet_pad', 'opus_packet_unpad', 'opus_packet_parse_impl', 'encode_size', 'opus_packet_get_nb_frames'])
 GROUPS = []
-for (_a, _b, _tier) in ((2, 2, 'quick'), (3, 2, 'quick'), (3, 3, 'thorough'), (4, 3, 'thorough'), (5, 4, 'thorough')):
+for (_a, _b, _tier) in ((2, 2, 'thorough'), (3, 2, 'thorough'), (3, 3, 'thorough'), (4, 3, 'thorough'), (5, 4, 'thorough')):
     GROUPS.append(dict(_B, name='repack_two_%d_%d' % (_a, _b), entry='h_repack_two', unwind=6, timeout=3600, mem_gb=20, tier=_tier,
         defines=['-DVERIF_L1=%d' % _a, '-DVERIF_L2=%d' % _b], bounds='packets of exactly %d and %d bytes (all bytes symbolic), <= 2 frames each, no padding in the inputs' % (_a, _b),
         what='cat x2 -> out -> parse: accept/reject conditions, frames preserved byte for byte and in order, output <= maxlen or refused'))
-for (_a, _tier) in ((2, 'quick'), (3, 'quick'), (4, 'thorough'), (5, 'thorough')):
+for (_a, _tier) in ((2, 'thorough'), (3, 'thorough'), (4, 'thorough'), (5, 'thorough')):
     GROUPS.append(dict(_B, name='pad_unpad_%d' % _a, entry='h_pad_unpad', unwind=6, timeout=3600, mem_gb=20, tier=_tier,
         defines=['-DVERIF_L1=%d' % _a], bounds='packet of exactly %d bytes, <= 2 frames, new_len <= len+3' % _a,
         what='pad to new_len keeps frames, exact length; unpad canonical and idempotent'))
@@ -16,7 +16,7 @@ for _c in (1, 2, 3):
     GROUPS.append(dict(_O, name='out_range_size_c%d' % _c, unwind=_c + 4, timeout=1800, defines=['-DVERIF_COUNT=%d' % _c], mem_gb=20,
         bounds='selected range of exactly %d frames (inside a repacketizer holding up to 2 more), every frame length 0..1275 symbolic, any maxlen, both framings, no padding' % _c,
         what='size accounting of out_range against maxlen: result <= maxlen, refused exactly when the canonical packet does not fit, exact canonical length, 1277 bytes per frame suffice'))
-GROUPS.append(dict(_O, cls='B', name='out_range_pad_c2', unwind=44, timeout=3600, defines=['-DVERIF_COUNT=2', '-DVERIF_PAD=1', '-DVERIF_MAXLEN_CAP=40', '-DVERIF_FRAME_CAP=8'], mem_gb=20,
+GROUPS.append(dict(_O, cls='B', name='out_range_pad_c2', tier='thorough', unwind=44, timeout=3600, defines=['-DVERIF_COUNT=2', '-DVERIF_PAD=1', '-DVERIF_MAXLEN_CAP=40', '-DVERIF_FRAME_CAP=8'], mem_gb=20,
     bounds='2 frames of <= 8 bytes, maxlen <= 40, padding requested', what='padded output has exactly maxlen bytes or is refused'))
 GROUPS.append(dict(name='cat_invariant', cls='P', tu='C07_cat.c', entry='h_cat', canary='real', expect_canaries=2, unwind=2, timeout=1800, mem_gb=20,
     functions=['opus_repacketizer_cat_impl', 'opus_packet_get_nb_frames', 'opus_packet_get_samples_per_frame'],
